@@ -1,14 +1,22 @@
 package symgo
 
 import (
+	"encoding/json"
 	"fmt"
 	"go/types"
+	"os"
 	"path"
+	"path/filepath"
+	"net/mail"
+	"regexp"
 	"sort"
 	"strconv"
 	"strings"
+	"sync"
+	"time"
 	"unicode/utf8"
 
+	"github.com/lucasjones/reggen"
 	"golang.org/x/tools/go/ssa"
 
 	"verif/sym"
@@ -54,6 +62,8 @@ func init() {
 		"strings.Clone":                extIdentity,
 		"strconv.Quote":                extQuote,
 		"(*sync.Once).Do":              extOnceDo,
+		"(*sync.Pool).Get":             extPoolGet,
+		"(*sync.Pool).Put":             extNop,
 		"(*sync.Mutex).Lock":           extNop,
 		"(*sync.Mutex).Unlock":         extNop,
 		"(*sync.RWMutex).Lock":         extNop,
@@ -65,6 +75,19 @@ func init() {
 		"(*os.fileStat).IsDir":        extFileStatIsDir,
 		"github.com/jsightapi/jsight-schema-core/reader.Read": extReaderRead,
 		"runtime.KeepAlive":            extNop,
+		"unicode.IsSpace":              extUnicodeIsSpace,
+		"regexp.MustCompile":           extRegexpMustCompile,
+		"regexp.Compile":               extRegexpCompile,
+		"(*regexp.Regexp).Match":       extRegexpMatch,
+		"(*regexp.Regexp).MatchString": extRegexpMatch,
+		"(*regexp.Regexp).String":      extRegexpString,
+		"time.Parse":                   extTimeParse,
+		"net/mail.ParseAddress":        extMailParseAddress,
+		"github.com/lucasjones/reggen.NewGenerator": extReggenNew,
+		"(*github.com/lucasjones/reggen.Generator).SetSeed": extReggenSetSeed,
+		"(*github.com/lucasjones/reggen.Generator).Generate": extReggenGenerate,
+		"encoding/json.Unmarshal":      extJSONUnmarshal,
+		"(*regexp.Regexp).ReplaceAllString": extRegexpReplaceAllString,
 	}
 	if false {
 		externals["path/filepath.Join"] = extFilepathJoin
@@ -230,6 +253,24 @@ func (in *Interp) fmtOperand(a Value, verb byte) Str {
 				return r
 			}
 		}
+	}
+	if p, isP := ia.V.(*Value); isP && (verb == 'p' || verb == 'v') {
+		if p == nil {
+			if verb == 'p' {
+				return Str{S: "0x0"}
+			}
+			return Str{S: "<nil>"}
+		}
+		if in.ptrIDs == nil {
+			in.ptrIDs = map[*Value]int{}
+		}
+		id, ok := in.ptrIDs[p]
+		if !ok {
+			id = len(in.ptrIDs) + 1
+			in.ptrIDs[p] = id
+		}
+		in.Notes["imprecise:pointer-formatted-as-sequence-number"]++
+		return Str{S: fmt.Sprintf("0xc%09x", id*16)}
 	}
 	switch v := ia.V.(type) {
 	case Str:
@@ -596,6 +637,9 @@ func (in *Interp) vfsLookup(p Str, op string) (*vfile, string) {
 	if p.Len() == 0 {
 		return nil, ""
 	}
+	if in.RealFS && p.T == nil {
+		return in.realFile(p.S), p.S
+	}
 	in.pinPathShape(p)
 	name := p.S
 	clean := path.Clean(name)
@@ -802,6 +846,7 @@ var harnessNames = map[string]ExtFn{
 	"vDir":      hDir,
 	"vSymbolic": func(in *Interp, fn *ssa.Function, args []Value) Value { return mkBool(true) },
 	"vFSLog":    hFSLog,
+	"vCorpusFile": hCorpusFile,
 	"vParam":    hParam,
 	"vPath":     func(in *Interp, fn *ssa.Function, args []Value) Value { return args[0] },
 	"vCleanup":  func(in *Interp, fn *ssa.Function, args []Value) Value { return nil },
@@ -970,4 +1015,243 @@ func ExternalNames() []string {
 	}
 	sort.Strings(out)
 	return out
+}
+
+// ---------- regexp (only the shapes this code base uses) ----------
+
+func extRegexpMustCompile(in *Interp, fn *ssa.Function, args []Value) Value {
+	pat := args[0].(Str)
+	if _, err := regexp.Compile(pat.S); err != nil {
+		panic(goPanic{v: Iface{T: types.Typ[types.String], V: Str{S: "regexp: Compile(" + strconv.Quote(pat.S) + "): " + err.Error()}}, site: in.site(), stack: in.stack()})
+	}
+	p := new(Value)
+	*p = Struct{pat}
+	return p
+}
+
+// ReplaceAllString: the pattern `\s+` (the only one in the code base) is modelled
+// exactly over symbolic bytes: every maximal run of [\t\n\f\r ] becomes repl.
+// One recorded branch per symbolic byte (class membership as a single term).
+func extRegexpReplaceAllString(in *Interp, fn *ssa.Function, args []Value) Value {
+	re := (*(args[0].(*Value))).(Struct)[0].(Str)
+	src, repl := args[1].(Str), args[2].(Str)
+	if re.S != `\s+` {
+		in.Notes["imprecise:regexp-on-concrete-shadow"]++
+		r := regexp.MustCompile(re.S)
+		return Str{S: r.ReplaceAllString(in.concretizeStr(src, "regexp"), repl.S)}
+	}
+	out := Str{}
+	inRun := false
+	for i := 0; i < src.Len(); i++ {
+		b := src.ByteAt(i)
+		isSp := b.C == '\t' || b.C == '\n' || b.C == '\f' || b.C == '\r' || b.C == ' '
+		c := mkBool(isSp)
+		if b.T != nil {
+			var alts []*sym.Term
+			for _, w := range []uint64{'\t', '\n', '\f', '\r', ' '} {
+				alts = append(alts, in.St.Eq(b.T, in.St.Const(8, w)))
+			}
+			c.T = in.St.Or(alts...)
+		}
+		if in.branch(c, RecBranch, "regexp-space") {
+			if !inRun {
+				out = concatStr(out, repl)
+				inRun = true
+			}
+			continue
+		}
+		inRun = false
+		out = concatStr(out, src.Slice(i, i+1))
+	}
+	return out
+}
+
+// unicode.IsSpace as a single term over the (possibly symbolic) rune.
+func extUnicodeIsSpace(in *Interp, fn *ssa.Function, args []Value) Value {
+	r := args[0].(Sc)
+	v := int64(r.C)
+	ranges := [][2]int64{{0x9, 0xd}, {0x20, 0x20}, {0x85, 0x85}, {0xa0, 0xa0}, {0x1680, 0x1680}, {0x2000, 0x200a}, {0x2028, 0x2029}, {0x202f, 0x202f}, {0x205f, 0x205f}, {0x3000, 0x3000}}
+	is := false
+	for _, rg := range ranges {
+		if v >= rg[0] && v <= rg[1] {
+			is = true
+		}
+	}
+	res := mkBool(is)
+	if r.T != nil && !r.T.IsConst() {
+		var alts []*sym.Term
+		for _, rg := range ranges {
+			if rg[0] == rg[1] {
+				alts = append(alts, in.St.Eq(r.T, in.St.Const(32, uint64(rg[0]))))
+			} else {
+				alts = append(alts, in.St.And(in.St.Cmp(sym.OpSle, in.St.Const(32, uint64(rg[0])), r.T), in.St.Cmp(sym.OpSle, r.T, in.St.Const(32, uint64(rg[1])))))
+			}
+		}
+		res.T = in.St.Or(alts...)
+	}
+	return res
+}
+
+var corpusOnce sync.Once
+var corpusFiles []string
+
+func hCorpusFile(in *Interp, fn *ssa.Function, args []Value) Value {
+	corpusOnce.Do(func() {
+		filepath.Walk("/repo/testdata", func(p string, info os.FileInfo, err error) error {
+			if err == nil && !info.IsDir() && strings.HasSuffix(p, ".jst") {
+				corpusFiles = append(corpusFiles, p)
+			}
+			return nil
+		})
+		sort.Strings(corpusFiles)
+	})
+	i := in.intArg(args[0], "corpus-i")
+	if i < 0 || i >= len(corpusFiles) {
+		return Tuple{Str{}, []Value(nil)}
+	}
+	b, err := os.ReadFile(corpusFiles[i])
+	if err != nil {
+		in.unsupported("corpus read: %v", err)
+	}
+	in.RealFS = true
+	return Tuple{Str{S: corpusFiles[i]}, bytesFromStr(Str{S: string(b)})}
+}
+
+// realFile: fall back to the real file system (corpus mode only).
+func (in *Interp) realFile(name string) *vfile {
+	if !in.RealFS {
+		return nil
+	}
+	st, err := os.Stat(name)
+	if err != nil {
+		return nil
+	}
+	if st.IsDir() {
+		return &vfile{isDir: true}
+	}
+	b, err := os.ReadFile(name)
+	if err != nil {
+		return nil
+	}
+	return &vfile{content: bytesFromStr(Str{S: string(b)})}
+}
+
+// sync.Pool: always empty; Get calls New (a legal Pool behaviour).
+func extPoolGet(in *Interp, fn *ssa.Function, args []Value) Value {
+	p := args[0].(*Value)
+	if p == nil {
+		in.rtPanic("invalid memory address or nil pointer dereference")
+	}
+	st := fn.Signature.Recv().Type().(*types.Pointer).Elem().Underlying().(*types.Struct)
+	for i := 0; i < st.NumFields(); i++ {
+		if st.Field(i).Name() == "New" {
+			f := (*p).(Struct)[i]
+			if c, ok := f.(*Closure); ok && c == nil {
+				return Iface{}
+			}
+			if f == nil {
+				return Iface{}
+			}
+			return in.call(f, nil)
+		}
+	}
+	return Iface{}
+}
+
+// ---------- concrete-only delegations to the native standard library ----------
+// (used below jsight-schema-core's constraint code; symbolic operands are an explicit drop)
+
+func (in *Interp) needConcrete(s Str, what string) string {
+	if s.T != nil {
+		in.unsupported("%s on symbolic operand", what)
+	}
+	return s.S
+}
+
+func extRegexpCompile(in *Interp, fn *ssa.Function, args []Value) Value {
+	pat := args[0].(Str)
+	if _, err := regexp.Compile(in.needConcrete(pat, "regexp.Compile")); err != nil {
+		return Tuple{(*Value)(nil), in.newErrorString(Str{S: err.Error()})}
+	}
+	p := new(Value)
+	*p = Struct{pat}
+	return Tuple{p, Iface{}}
+}
+
+func extRegexpMatch(in *Interp, fn *ssa.Function, args []Value) Value {
+	re := (*(args[0].(*Value))).(Struct)[0].(Str)
+	subj := asStr(args[1])
+	r := regexp.MustCompile(re.S)
+	return mkBool(r.MatchString(in.needConcrete(subj, "regexp match")))
+}
+
+func extRegexpString(in *Interp, fn *ssa.Function, args []Value) Value {
+	return (*(args[0].(*Value))).(Struct)[0].(Str)
+}
+
+func extTimeParse(in *Interp, fn *ssa.Function, args []Value) Value {
+	layout := in.needConcrete(args[0].(Str), "time.Parse")
+	value := in.needConcrete(args[1].(Str), "time.Parse")
+	_, err := time.Parse(layout, value)
+	z := zero(fn.Signature.Results().At(0).Type())
+	in.Notes["imprecise:time.Parse-result-value-opaque"]++
+	if err != nil {
+		return Tuple{z, in.newErrorString(Str{S: err.Error()})}
+	}
+	return Tuple{z, Iface{}}
+}
+
+func extJSONUnmarshal(in *Interp, fn *ssa.Function, args []Value) Value {
+	data := in.needConcrete(asStr(args[0]), "json.Unmarshal")
+	target := args[1].(Iface)
+	pt, ok := target.T.Underlying().(*types.Pointer)
+	if !ok || !isString(pt.Elem()) {
+		in.unsupported("json.Unmarshal into %s", target.T)
+	}
+	var str string
+	if err := json.Unmarshal([]byte(data), &str); err != nil {
+		return in.newErrorString(Str{S: err.Error()})
+	}
+	*(target.V.(*Value)) = Str{S: str}
+	return Iface{}
+}
+
+func extMailParseAddress(in *Interp, fn *ssa.Function, args []Value) Value {
+	a := in.needConcrete(args[0].(Str), "mail.ParseAddress")
+	_, err := mail.ParseAddress(a)
+	if err != nil {
+		return Tuple{(*Value)(nil), in.newErrorString(Str{S: err.Error()})}
+	}
+	in.Notes["imprecise:mail.ParseAddress-result-opaque"]++
+	p := new(Value)
+	*p = zero(fn.Signature.Results().At(0).Type().(*types.Pointer).Elem())
+	return Tuple{p, Iface{}}
+}
+
+// reggen (regex example generator): opaque; example text is outside every claim.
+func extReggenNew(in *Interp, fn *ssa.Function, args []Value) Value {
+	pat := in.needConcrete(args[0].(Str), "reggen.NewGenerator")
+	g, err := reggen.NewGenerator(pat)
+	if err != nil {
+		return Tuple{(*Value)(nil), in.newErrorString(Str{S: err.Error()})}
+	}
+	p := new(Value)
+	*p = Struct{Str{S: pat}}
+	if in.reggens == nil {
+		in.reggens = map[*Value]*reggen.Generator{}
+	}
+	in.reggens[p] = g
+	in.Notes["native:reggen (regex example generator runs natively on concrete patterns)"]++
+	return Tuple{p, Iface{}}
+}
+
+func extReggenSetSeed(in *Interp, fn *ssa.Function, args []Value) Value {
+	g := in.reggens[args[0].(*Value)]
+	g.SetSeed(int64(in.concretize(args[1].(Sc), 64, "reggen-seed")))
+	return nil
+}
+
+func extReggenGenerate(in *Interp, fn *ssa.Function, args []Value) Value {
+	g := in.reggens[args[0].(*Value)]
+	return Str{S: g.Generate(in.intArg(args[1], "reggen-limit"))}
 }
